@@ -487,7 +487,7 @@ pub fn run(mut chk: Check) -> ! {
         "failing appends are classified by the library's own validate() and a dry run of the unvalidated encoder; values that validate and encode to something (silent corruption) belong to C07 and are not generated here".into(),
     ];
     chk.replay_files(dispatch);
-    let n = chk.scale(8000, 400_000);
+    let n = chk.scale(60_000, 400_000);
     chk.campaign(CampaignCfg::new("history", n).len(0, 900), case_history);
     chk.require_label("history:fail_then_success", "history:case", 5.0);
     chk.require_label("history:reopen", "history:case", 5.0);
